@@ -57,6 +57,8 @@ def check_case(spec):
     res.label(f"src={info['src']}", "holes" if info.get("holes") else "simply connected")
     if info.get("synthetic"):
         res.label("synthetic weights")
+    if info.get("scaled"):
+        res.label("scaled coordinates (1e-6..1e8)")
     res.nontrivial = n >= 20 and interior >= 1
     a = mesh.areas
 
@@ -137,6 +139,28 @@ def check_case(spec):
     G0 = ops.build_gradient(mesh, link_exponents=np.zeros_like(A))
     if np.abs(G0.toarray() - G.toarray()).max() > TOL * np.abs(G).max():
         res.fail("C03.covariant_reduces_to_scalar", "Grad_{A=0} differs from the scalar gradient")
+
+    # 5b. the covariant operators *in use* (stateful MeshOperators, refreshed in place) are Hermitian as well and equal the builders,
+    #     whatever the pinned-site argument (None, empty) and with pinning disabled
+    from tdgl.finite_volume.operators import MeshOperators
+    from tdgl.solver.options import SparseSolver
+
+    for fixed_arg, fix_psi in ((None, True), (np.array([], dtype=np.int64), True), (np.array([0, n - 1], dtype=np.int64), False)):
+        mo = MeshOperators(mesh, SparseSolver.SUPERLU, fixed_sites=fixed_arg, fix_psi=fix_psi)
+        mo.set_link_exponents(0.5 * A[::-1].copy() + 0.1)
+        mo.set_link_exponents(A)
+        MO = a[:, None] * mo.psi_laplacian.toarray()
+        r = rel(np.abs(MO - MO.conj().T).max(), np.abs(MO).max())
+        res.stat("hermiticity_in_use", r)
+        if r > TOL:
+            res.fail("C03.covariant_hermitian_in_use", f"diag(a) L_A of a MeshOperators refreshed in place (fixed_sites={'None' if fixed_arg is None else len(fixed_arg)}, fix_psi={fix_psi}) is not Hermitian: {r:.2e}")
+        r = rel(np.abs(mo.psi_laplacian.toarray() - LA.toarray()).max(), np.abs(LA.toarray()).max())
+        if r > TOL:
+            res.fail("C03.covariant_in_use_equals_builder", f"psi_laplacian of a refreshed MeshOperators differs from build_laplacian for the same potential by {r:.2e}")
+        GA = ops.build_gradient(mesh, link_exponents=A)
+        r = rel(np.abs(mo.psi_gradient.toarray() - GA.toarray()).max(), np.abs(GA.toarray()).max())
+        if r > TOL:
+            res.fail("C03.covariant_in_use_equals_builder", f"psi_gradient of a refreshed MeshOperators differs from build_gradient for the same potential by {r:.2e}")
 
     # 6. gradient exact on linear functions
     al, be, c0 = spec["lin"]
